@@ -93,6 +93,51 @@ def orderOK : List (Nat × RPhase × Verdict) → Bool
     orderOK ((j, q, w) :: r)
   | _ => true
 
+def forwarded (l : List Obs) : Bool := l.any (fun o => o == .un || o == .uf)
+
+/-! completeness of the passes ("filters run in configured order": none is skipped) -/
+
+/-- no configured receiver filter of phase `q` has an index in [lo, hi) -/
+def noneOf (c : Cfg) (q : RPhase) (lo hi : Nat) : Bool :=
+  (List.range (hi - lo)).all (fun d => match c.recv[lo + d]? with | some f => f.phase != q | none => true)
+
+def noneFrom (c : Cfg) (q : RPhase) (lo : Nat) : Bool := noneOf c q lo c.recv.length
+
+def phasesBefore : RPhase → List RPhase
+  | .BeforeRoute => [] | .AfterRoute => [.BeforeRoute] | .AfterChooseHost => [.BeforeRoute, .AfterRoute]
+def phasesAfter : RPhase → List RPhase
+  | .BeforeRoute => [.AfterRoute, .AfterChooseHost] | .AfterRoute => [.AfterChooseHost] | .AfterChooseHost => []
+def phasesBetween (p q : RPhase) : List RPhase :=
+  (phasesAfter p).filter (fun x => (phasesBefore q).contains x)
+
+/-- the very first invocation is of the first filter of its phase, and the earlier phases have no filters -/
+def headOK (c : Cfg) (a : Nat × RPhase × Verdict) : Bool :=
+  noneOf c a.2.1 0 a.1 && (phasesBefore a.2.1).all (fun x => noneFrom c x 0)
+
+/-- two consecutive invocations: inside a pass the second is the NEXT filter of the phase; a resumed pass restarts at
+the requesting filter (checked by `orderOK`); when the phase changes the old pass ended properly (a continuing last
+filter was the last of its phase), the new pass starts at the FIRST filter of its phase, and the phases in between have
+no filters -/
+def compStep (c : Cfg) (a b : Nat × RPhase × Verdict) : Bool :=
+  if a.2.1 == b.2.1 then accepted a.2.1 a.2.2.status || noneOf c a.2.1 (a.1 + 1) b.1
+  else (!continues a.2.2.status || noneFrom c a.2.1 (a.1 + 1)) && noneOf c b.2.1 0 b.1 &&
+    (phasesBetween a.2.1 b.2.1).all (fun x => noneFrom c x 0)
+
+def compChain (c : Cfg) : List (Nat × RPhase × Verdict) → Bool
+  | a :: b :: r => compStep c a b && compChain c (b :: r)
+  | _ => true
+
+/-- a request that reached the pool had every pass: the last invocation ended its pass properly and the later phases
+have no filters -/
+def compLast (c : Cfg) (a : Nat × RPhase × Verdict) : Bool :=
+  (!continues a.2.2.status || noneFrom c a.2.1 (a.1 + 1)) && (phasesAfter a.2.1).all (fun x => noneFrom c x 0)
+
+def completeOK (c : Cfg) (l : List Obs) : Bool :=
+  match recvObs l with
+  | [] => !forwarded l || c.recv.isEmpty
+  | a :: r => headOK c a && compChain c (a :: r) &&
+    (!forwarded l || match (a :: r).getLast? with | some z => compLast c z | none => true)
+
 /-- no receiver filter runs once the response side started -/
 def noRecvAfterSend : List Obs → Bool
   | [] => true
@@ -101,8 +146,6 @@ def noRecvAfterSend : List Obs → Bool
   | _ :: r => noRecvAfterSend r
 
 def denied (l : List Obs) : Bool := (recvObs l).any (fun (_, _, v) => v.isDeny)
-
-def forwarded (l : List Obs) : Bool := l.any (fun o => o == .un || o == .uf)
 
 def count (p : Obs → Bool) (l : List Obs) : Nat := (l.filter p).length
 
@@ -151,7 +194,7 @@ def singleReplyOK (c : Cfg) (l : List Obs) : Bool :=
 
 /-- order, once, resume, deny_not_forwarded, sender-once -/
 def specSafety (c : Cfg) (l : List Obs) : Bool :=
-  phasesOK c (recvObs l) && orderOK (recvObs l) && noRecvAfterSend l &&
+  phasesOK c (recvObs l) && orderOK (recvObs l) && completeOK c l && noRecvAfterSend l &&
   (!denied l || !forwarded l) && sendOK c l
 
 def spec (c : Cfg) (l : List Obs) : Bool := specSafety c l && singleReplyOK c l
